@@ -525,6 +525,7 @@ package rockredis
 // the live length of the stored string: an expired value is dead (C10), an absent one is empty
 //@ spec kvLive(db *RockDB) int = ite(ghost(kvexpired, db) == 1, 0, ghost(kvlen, db))
 
+//@ property C08
 // SETRANGE key offset value: the reply is the length of the resulting string, max(old length, offset+len(value));
 // an empty value changes nothing; a bad offset is an error, never a panic
 //@ func (db *RockDB) SetRange(ts int64, rawKey []byte, offset int, value []byte) (int64, error)
@@ -565,6 +566,7 @@ package rockredis
 //@   ensures offset == -1 ==> zlS(total, start) > zlE(total, stop) || zlS(total, start) >= total
 //@   ensures offset != -1 ==> offset == zlS(total, start) && count == zlE(total, stop) - zlS(total, start) + 1 && count >= 1
 
+//@ property C08 C09
 // ---- collection element accounting (hash / set) ----
 // ghost(misses, db) / ghost(hits, db): point reads of the command that found nothing / something in the store
 //@ func (r *RockDB) GetBytesNoLock(key []byte) ([]byte, error)
@@ -587,11 +589,13 @@ package rockredis
 //@ spec storedSize(b []byte) int = ite(len(b) == 0, 0, toI64(be64(b, 0)))
 //@ func Uint64(v []byte, err error) (uint64, error)
 //@   ensures err != nil ==> result1 == err && result0 == 0
+//@   ensures result1 == nil || result1 == err || result1 == errIntNumber
 //@   ensures err == nil && len(v) == 0 ==> result1 == nil && result0 == 0
 //@   ensures err == nil && len(v) == 8 ==> result1 == nil && result0 == be64(v, 0)
 //@   ensures err == nil && len(v) != 0 && len(v) != 8 ==> result1 != nil
 //@ func Int64(v []byte, err error) (int64, error)
 //@   ensures err != nil ==> result1 == err && result0 == 0
+//@   ensures result1 == nil || result1 == err || result1 == errIntNumber
 //@   ensures err == nil && (len(v) == 0 || len(v) == 8) ==> result1 == nil && result0 == storedSize(v)
 //@   ensures err == nil && len(v) != 0 && len(v) != 8 ==> result1 != nil
 //@ func PutInt64(v int64) []byte
